@@ -131,6 +131,12 @@ def run(ctx):
         cases.append(line)
         info[cid] = (meta['directed'], meta['L'], meta['recs'])
         cid += 1
+    for k in range(ctx.budget(150, 1500)):
+        # real weights at the 1e-6 threshold exactly and one ulp beside
+        line, meta = gen.gen_graph_threshold(rng.fork('gt%d' % k), cid)
+        cases.append(line)
+        info[cid] = (meta['directed'], meta['L'], meta['recs'])
+        cid += 1
     res = ctx.component('K-GRAPH', cases)
     # end to end: integer weight m == m unit records (bit-identical results)
     e2e = []
